@@ -300,41 +300,38 @@ class BFSResult(object):
         self.obs = set()
         self.violations = []
         self.level_sizes = []
+        self.bisim_examples = []
 
 
-_BFS_FN = None
-_BFS_NLETTERS = 0
-
-
-def _bfs_expand(word):
+def _bfs_expand(task):
     """Worker: run every one-letter extension of `word`.
     returns list of (key, obs_digest, violation_or_None)"""
+    step, ctx, nletters, word = task
     out = []
-    for a in range(_BFS_NLETTERS):
+    for a in range(nletters):
         w = word + (a,)
         try:
-            r = _BFS_FN(w)
+            r = step(w) if ctx is None else step(ctx, w)
         except Exception:  # harness bug: surface loudly, never as a VIOLATION
-            raise RuntimeError("harness error on word %r:\n%s" % (w, traceback.format_exc()))
+            raise RuntimeError("harness error on word %r ctx %r:\n%s" % (w, ctx, traceback.format_exc()))
         out.append(r)
     return out
 
 
 def product_bfs(step, nletters, depth, init_words=((),), max_transitions=None, bisim_depth=0,
-                on_progress=None):
-    """Explicit-state BFS.  step(word: tuple[int]) -> (key, obs_digest, violation|None).
+                on_progress=None, ctx=None):
+    """Explicit-state BFS.  step([ctx,] word: tuple[int]) -> (key, obs_digest, violation|None).
+    `step` must be a module-level function (it is sent to the worker pool by name); `ctx` is a small
+    picklable value handed to every call.
 
     `key` must contain the canonical implementation state AND the canonical reference state
     (see DESIGN 1.1).  Words whose key was already seen are not extended.  For pruned words at
     depth <= bisim_depth, the one-step bisimulation check of the key is run too."""
-    global _BFS_FN, _BFS_NLETTERS
-    close_pool()            # the pool must be forked after the step function is installed
-    _BFS_FN, _BFS_NLETTERS = step, nletters
     res = BFSResult()
     seen = {}
     frontier = []
     for w in init_words:
-        k, o, v = step(tuple(w))
+        k, o, v = step(tuple(w)) if ctx is None else step(ctx, tuple(w))
         res.transitions += 1
         res.obs.add(o)
         if v is not None:
@@ -342,7 +339,6 @@ def product_bfs(step, nletters, depth, init_words=((),), max_transitions=None, b
         if k not in seen:
             seen[k] = tuple(w)
             frontier.append(tuple(w))
-    base = min(len(w) for w in init_words) if init_words else 0
     succ_keys = {}   # representative word -> tuple of successor keys (for bisimulation check)
     pruned_for_bisim = []
     for d in range(1, depth + 1):
@@ -353,7 +349,7 @@ def product_bfs(step, nletters, depth, init_words=((),), max_transitions=None, b
             res.capped = True
             break
         nxt = []
-        results = pmap(_bfs_expand, frontier)
+        results = pmap(_bfs_expand, [(step, ctx, nletters, w) for w in frontier])
         for w, rs in zip(frontier, results):
             if d <= bisim_depth + 1:
                 succ_keys[w] = tuple(r[0] for r in rs)
@@ -377,7 +373,7 @@ def product_bfs(step, nletters, depth, init_words=((),), max_transitions=None, b
     # one-step bisimulation check of the abstraction on pruned words
     if pruned_for_bisim:
         todo = [p for p in pruned_for_bisim if p[1] in succ_keys]
-        results = pmap(_bfs_expand, [p[0] for p in todo])
+        results = pmap(_bfs_expand, [(step, ctx, nletters, p[0]) for p in todo])
         for (pw, rep), rs in zip(todo, results):
             res.bisim_checks += 1
             res.transitions += len(rs)
@@ -387,8 +383,9 @@ def product_bfs(step, nletters, depth, init_words=((),), max_transitions=None, b
                     res.violations.append(v)
             if tuple(r[0] for r in rs) != succ_keys[rep]:
                 res.bisim_failures += 1
+                if len(res.bisim_examples) < 5:
+                    res.bisim_examples.append((pw, rep))
     res.states = len(seen)
-    close_pool()
     return res
 
 
